@@ -8,8 +8,9 @@ Observation (no source hooks):
     two bracket the marker rules M1AssignRule / M2RoutineRule);
   * ProbeHandler.handle (called by Reporter.add_file_report in the process that checked the file,
     also for files that fail to parse) logs `report <file> <pid> <seq>` and returns the picklable
-    per-file report [(rule, line, message)]; ProbeHandler.output (main process) logs `collect` and
-    writes everything it was handed to a JSON file.
+    per-file report [(rule, line, message)] (wrapped in SlowItem: pickling it for the Manager takes a
+    seed-derived time); ProbeHandler.output (main process) logs `collect` and writes everything it was
+    handed to a JSON file.
 All log lines go to one O_APPEND file; `seq` is a per-process counter. Only the order of lines in
 the log and (pid, seq) are used, never wall-clock time.
 
@@ -86,6 +87,24 @@ class M2RoutineRule(GenericRule):
             rule_report.add(f'routine name {subroutine.name.lower()}', subroutine)
 
 
+class SlowItem:
+    """Return value of ProbeHandler.handle: a plain list once unpickled, but pickling it takes a seed-derived
+    time. The value is pickled when the worker sends `reports.append(item)` to the Manager process, i.e.
+    this delays the linearisation point of the append relative to everything the worker did before
+    (a read-modify-write of the shared list would get a wide race window; an atomic append does not care)."""
+
+    def __init__(self, data, delay):
+        self.data = data
+        self.delay = delay
+
+    def __reduce__(self):
+        time.sleep(self.delay)
+        return (list, (self.data,))
+
+    def __iter__(self):          # serial runs never pickle: behave like the list
+        return iter(self.data)
+
+
 class ProbeHandler(GenericHandler):
     """Report handler of the harness: returns/collects the raw per-file reports."""
 
@@ -105,7 +124,7 @@ class ProbeHandler(GenericHandler):
                 items.append([rr.rule.__name__, int(src.lines[0]) if src is not None else 0, str(p.msg)])
         time.sleep(_jitter(self.seed, 'handle', name, self.scale))
         _log(self.log, 'report', name)
-        return [name, items, os.getpid(), _seq[0]]
+        return SlowItem([name, items, os.getpid(), _seq[0]], _jitter(self.seed, 'pickle', name, self.scale))
 
     def output(self, handler_reports):
         reports = [list(r) for r in handler_reports]
